@@ -342,6 +342,10 @@ def check(ctx, run):
         s = [(prog.callee_name(ge, c) or "").split("::")[-1] for c in path_calls(prog, ge, p)]
         s = [x for x in s if x in ("writeTestGroupToFile", "resetTestGroupResult")]
         run.ob("R4", "group end writes the file then resets", ge.site, s == ["writeTestGroupToFile", "resetTestGroupResult"], witness=s)
+    # one file per group needs one group-end notification after the last test of every group, whatever is filtered out: the registry
+    # run folded over every list of up to 4 tests x selection (shared with C02.R4 / C20.R4)
+    from .C02 import registry_rules
+    registry_rules(prog, run, "R4", "groups")
     sm = methods["writeTestSuiteSummary"]
     for c in calls_to(prog, sm, "StringFromFormat"):
         a = sm.args(c)
